@@ -21,4 +21,12 @@ def dobsColumn (merged : List Int) (idl : List Int) (nums : List α) : List α :
 def dobsImport (merged : List Int) (col : List α) (value : α) : List (Int × α) :=
   (List.zip merged col).filterMap (fun (c, x) => if isZero x then none else some (c, x + value))
 
+/-- what `import_dobs_string` builds from the surviving (configuration, sample) pairs of one chain:
+    `obsmeans = np.average(deltas)`, `Obs([deltas - obsmeans], ..., means=obsmeans)`:
+    configuration list, fluctuations, replica mean -/
+def dobsChain (pairs : List (Int × α)) : List Int × List α × α :=
+  let xs := pairs.map (·.2)
+  let m := sum xs / ofNatS xs.length
+  (pairs.map (·.1), xs.map (· - m), m)
+
 end PV
